@@ -753,6 +753,9 @@ func c16Strings(alpha string, maxLen int) []string {
 
 // ---------------------------------------------------------------- driver
 func runC16(c *Ctx) {
+	if c.From == nil {
+		runC16OSWalk(c)
+	}
 	cwd, _ := os.Getwd()
 	defer os.Chdir(cwd)
 	if c.From != nil {
@@ -922,4 +925,94 @@ func runC16(c *Ctx) {
 		}
 		w.Close()
 	}
+}
+
+// Walk on the operating system itself (oracle only): a tree with a symbolic link to a directory
+// and one to a file, walked by afero.Walk and by the Afero method over OsFs and over a BasePathFs,
+// with callbacks that return SkipDir, an error WRAPPING SkipDir (path/filepath compares by
+// identity: that is an ordinary error) or an ordinary error at the k-th visit.
+func runC16OSWalk(c *Ctx) {
+	dir, err := os.MkdirTemp("", "afc16-")
+	if err != nil {
+		panic(err)
+	}
+	defer os.RemoveAll(dir)
+	for _, p := range []string{"a/x", "a/y/z", "b", "c/q"} {
+		os.MkdirAll(filepath.Join(dir, filepath.Dir(p)), 0o755)
+		os.WriteFile(filepath.Join(dir, p), []byte(p), 0o644)
+	}
+	os.Symlink(filepath.Join(dir, "a"), filepath.Join(dir, "ln-dir"))
+	os.Symlink(filepath.Join(dir, "b"), filepath.Join(dir, "ln-file"))
+	os.Symlink(filepath.Join(dir, "nowhere"), filepath.Join(dir, "ln-dangling"))
+	wrapped := fmt.Errorf("stop here: %w", filepath.SkipDir)
+	plain := errors.New("plain error")
+	run := func(walk func(string, filepath.WalkFunc) error, root, strip string, k int, ret error) string {
+		var vs []string
+		n := 0
+		err := walk(root, func(p string, info os.FileInfo, err error) error {
+			kind := "n"
+			if info != nil {
+				kind = "f"
+				if info.IsDir() {
+					kind = "d"
+				}
+				if info.Mode()&os.ModeSymlink != 0 {
+					kind = "l"
+				}
+			}
+			vs = append(vs, strings.TrimPrefix(p, strip)+":"+kind)
+			n++
+			if n == k {
+				return ret
+			}
+			return nil
+		})
+		r := "-"
+		switch {
+		case err == nil:
+		case err == filepath.SkipDir:
+			r = "SkipDir"
+		case err == wrapped:
+			r = "wrapped"
+		case err == plain:
+			r = "plain"
+		default:
+			r = "other"
+		}
+		return strings.Join(vs, ",") + " r=" + r
+	}
+	osfs := afero.NewOsFs()
+	bp := afero.NewBasePathFs(osfs, dir)
+	walkers := []struct {
+		name        string
+		walk        func(string, filepath.WalkFunc) error
+		root, strip string
+	}{
+		{"afero.Walk(OsFs)", func(r string, fn filepath.WalkFunc) error { return afero.Walk(osfs, r, fn) }, dir, dir},
+		{"Afero{OsFs}.Walk", func(r string, fn filepath.WalkFunc) error { return afero.Afero{Fs: osfs}.Walk(r, fn) }, dir, dir},
+		{"afero.Walk(BasePathFs(OsFs))", func(r string, fn filepath.WalkFunc) error { return afero.Walk(bp, r, fn) }, "/", ""},
+		{"Afero{BasePathFs(OsFs)}.Walk", func(r string, fn filepath.WalkFunc) error { return afero.Afero{Fs: bp}.Walk(r, fn) }, "/", ""},
+	}
+	n := 0
+	for k := 0; k <= 12; k++ {
+		for ri, ret := range []error{filepath.SkipDir, wrapped, plain} {
+			if k == 0 && ri > 0 {
+				continue
+			}
+			std := run(filepath.Walk, dir, dir, k, ret)
+			for _, w := range walkers {
+				n++
+				c.Count("oswalk")
+				got := run(w.walk, w.root, w.strip, k, ret)
+				g, s := got, std
+				if w.strip == "" && strings.HasPrefix(g, "/:") { // the BasePathFs names its root "/", filepath (after stripping) ""
+					g = g[1:]
+				}
+				if g != s {
+					c.Oracle("FAIL osw%d walk:os %s, callback returns %v at visit %d: %s | filepath.Walk: %s", n, w.name, ret, k, got, std)
+				}
+			}
+		}
+	}
+	c.Extra["os_walk"] = fmt.Sprintf("%d walks of a temp dir with symbolic links (to a directory, to a file, dangling) by afero.Walk and Afero.Walk over OsFs and BasePathFs(OsFs), callbacks returning SkipDir / wrapped SkipDir / an error at visit k (oracle only)", n)
 }
